@@ -379,10 +379,19 @@ def run(pid, tier):
     assume = ["'every value of PYTHONHASHSEED' is decided exhaustively only for set iteration orders reached through the name `set` "
               "in generator.py; other mechanisms are covered differentially (5 hash seeds)",
               "fingerprint = canonical JSON of the scenario definition (hosts, firewall as sorted lists, exploits, escalations, sensitive hosts, topology, bounds)"]
+    # the same calls repeated LATER on the same environment object (after other episodes, look-aheads, resets) must give
+    # the same trajectory (mc/apiseq.py: every step / reset result against the pristine state graph)
+    from . import apiseq
+    api_cov, api_viol = apiseq.check_part("C14", tier)
+    cov["api_sequence_exploration"] = api_cov
+    violations = list(violations) + api_viol
     return finish(pid, tier, cov, violations, assume, t0)
 
 
 def replay(pid, rec):
+    if rec.get("engine") == "apiseq":
+        from . import apiseq
+        return apiseq.replay(rec)
     import_nasim()
     eng = rec.get("engine")
     if eng == "set_order":
